@@ -978,15 +978,65 @@ Proof.
   - vm_compute. reflexivity.
 Qed.
 
+(* ---------- decimal numbers ---------- *)
+
+Definition dstep (a c : N) : N := 10 * a + (c - 48).
+
+Lemma dec_digits_spec fuel n acc :
+  (1 <= fuel)%nat -> n < 10 ^ N.of_nat fuel ->
+  exists d, dec_digits fuel n acc = d ++ acc /\ d <> [] /\ forallb is_digit d = true /\
+            forall a, fold_left dstep d a = a * 10 ^ N.of_nat (length d) + n.
+Proof.
+  revert n acc. induction fuel as [|f IH]; intros n acc Hf H; [lia|].
+  cbn [dec_digits].
+  assert (Hm : n mod 10 < 10) by (apply N.mod_lt; discriminate).
+  assert (Hd : is_digit (48 + n mod 10) = true).
+  { unfold is_digit. revert Hm. generalize (n mod 10). intros r Hr. apply andb_true_iff. split; apply N.leb_le; lia. }
+  destruct (N.ltb_spec n 10) as [Hs|Hb].
+  - exists [48 + n mod 10]. split; [reflexivity|]. split; [discriminate|]. split; [cbn [forallb]; now rewrite Hd|].
+    intro a. cbn [fold_left length]. unfold dstep. rewrite N.mod_small by exact Hs. change (N.of_nat 1) with 1. lia.
+  - assert (Hq : n / 10 < 10 ^ N.of_nat f).
+    { apply N.div_lt_upper_bound; [discriminate|].
+      replace (N.of_nat (S f)) with (N.succ (N.of_nat f)) in H by lia. rewrite N.pow_succ_r' in H. lia. }
+    assert (Hf1 : (1 <= f)%nat).
+    { destruct f; [|lia]. simpl in H. lia. }
+    destruct (IH (n / 10) ((48 + n mod 10) :: acc) Hf1 Hq) as (d & E & Dne & Dd & F).
+    exists (d ++ [48 + n mod 10]). split; [rewrite E; now rewrite <- app_assoc|].
+    split; [destruct d; discriminate|]. split; [rewrite forallb_app, Dd; cbn [forallb]; now rewrite Hd|].
+    intro a. rewrite fold_left_app, F. cbn [fold_left]. unfold dstep at 1.
+    rewrite app_length. simpl length. replace (N.of_nat (length d + 1)) with (N.succ (N.of_nat (length d))) by lia.
+    rewrite N.pow_succ_r'. pose proof (N.div_mod n 10 ltac:(discriminate)) as DM.
+    set (q := n / 10) in *. set (r := n mod 10) in *. set (X := 10 ^ N.of_nat (length d)) in *.
+    clearbody q r X. replace (a * (10 * X)) with (10 * (a * X)) by ring. lia.
+Qed.
+
+Theorem atoi_itoa n : n < 10 ^ 40 -> atoi (itoa n) = Some n.
+Proof.
+  intro H. unfold itoa. destruct (dec_digits_spec 40 n [] ltac:(lia) H) as (d & E & Dne & Dd & F).
+  rewrite app_nil_r in E. rewrite E. unfold atoi. destruct d as [|c0 d']; [contradiction|].
+  rewrite Dd. f_equal. change (fun a c => 10 * a + (c - 48)) with dstep. rewrite F. lia.
+Qed.
+
 (* ---------- exactly once with net/url as modelled: registries that write </path?escaped query> ---------- *)
 
-Definition vsmap (l : list (str * str)) : query := map (fun kv => (fst kv, VS (snd kv))) l.
-Definition all_vs (q : query) : Prop := Forall (fun kv => exists s, snd kv = VS s) q.
+(* the typed reading of a lenient parse: the value of n is a number when it is decimal *)
+Definition tval (kv : str * str) : qval :=
+  if str_eqb (fst kv) k_n then match atoi (snd kv) with Some n => VN n | None => VS (snd kv) end
+  else VS (snd kv).
+Definition vsmap (l : list (str * str)) : query := map (fun kv => (fst kv, tval kv)) l.
+
+(* n carries a number, every other key a string *)
+Definition typed_pair (kv : str * qval) : Prop :=
+  (fst kv = k_n /\ exists n, snd kv = VN n /\ n < 10 ^ 40) \/ (fst kv <> k_n /\ exists s, snd kv = VS s).
+Definition all_vs (q : query) : Prop := Forall typed_pair q.
 
 Lemma vsmap_shown q : all_vs q -> vsmap (shown q) = q.
 Proof.
-  induction 1 as [|[k v] q (s & E) _ IH]; [reflexivity|]. simpl in E. subst v.
-  unfold vsmap, shown in *. simpl. now rewrite IH.
+  induction 1 as [|[k v] q H _ IH]; [reflexivity|].
+  unfold vsmap, shown in *. cbn [map fst snd]. rewrite IH. f_equal. f_equal. unfold tval. cbn [fst snd].
+  destruct H as [(Ek & n & Ev & Hn)|(Nk & s0 & Ev)]; cbn [fst snd] in *; subst.
+  - rewrite str_eqb_refl. cbn [show]. now rewrite (atoi_itoa n Hn).
+  - now rewrite (str_eqb_neq k k_n Nk).
 Qed.
 
 Lemma Forall_qdel (P : str * qval -> Prop) k q : Forall P q -> Forall P (qdel k q).
@@ -1035,8 +1085,8 @@ Section Concrete.
   Hypothesis Hcub : match cu with CLast => True | CToken k s => Forall byte_ok k /\ Forall byte_ok s end.
   Hypothesis Hnames : forall x, In x (map fst L) -> Forall byte_ok x.
   Hypothesis Hextra_vs : forall i, all_vs (d_extra (ds i)) /\ query_ok (d_extra (ds i)).
-  (* no page size configured: requests carry strings only *)
-  Hypothesis Hn : (c_n c <= 0)%Z.
+  (* any page size (below 10^40) *)
+  Hypothesis Hn : (c_n c < 10 ^ 40)%Z.
 
   (* how this registry writes a link, and net/url (as modelled) reading it *)
   Definition render_c (i : nat) (base tgt : url) : str :=
@@ -1061,15 +1111,27 @@ Section Concrete.
   Proof.
     intros (Ep & Av & Qo) Hx. unfold link_target, link_url. cbn [u_path u_query]. split; [exact Ep|].
     destruct (Hextra_vs i) as [Ev Eo]. split.
-    - constructor; [now eexists|]. apply Forall_app. split; [exact Ev|]. now do 2 apply Forall_qdel.
+    - constructor; [right; split; [now apply ckey_neq_n|now eexists]|].
+      apply Forall_app. split; [exact Ev|]. now do 2 apply Forall_qdel.
     - constructor; [split; [apply ckey_ok|apply cenc_ok; now apply Hnames]|].
       apply Forall_app. split; [exact Eo|]. now do 2 apply Forall_qdel.
   Qed.
 
-  Lemma mk_request_plain u : mk_request c u [] = mkUrl (u_path u) (u_query u).
+  (* the request the client builds for a URL that satisfies the invariant satisfies it *)
+  Lemma mk_request_inv u last :
+    inv_c u -> Forall byte_ok last -> inv_c (mk_request c u last).
   Proof.
-    unfold mk_request. assert (E : (0 <? c_n c)%Z = false) by (apply Z.ltb_ge; exact Hn).
-    rewrite E. cbn [is_empty negb]. now rewrite andb_false_r.
+    intros (Ep & Av & Qo) Hl. unfold mk_request, inv_c. cbn [u_path u_query]. split; [exact Ep|].
+    assert (A : all_vs (if (0 <? c_n c)%Z then qset k_n (VN (Z.to_N (c_n c))) (u_query u) else u_query u) /\
+                query_ok (if (0 <? c_n c)%Z then qset k_n (VN (Z.to_N (c_n c))) (u_query u) else u_query u)).
+    { destruct (0 <? c_n c)%Z eqn:E; [|split; assumption]. apply Z.ltb_lt in E. unfold qset. split.
+      - constructor; [|now apply Forall_qdel]. left. split; [reflexivity|]. eexists. split; [reflexivity|]. lia.
+      - constructor; [|now apply Forall_qdel]. split; [apply k_n_ok|apply itoa_ok]. }
+    destruct A as [A1 A2].
+    destruct (sends_last (c_kind c) && negb (is_empty last)); [|split; assumption].
+    unfold qset. split.
+    - constructor; [|now apply Forall_qdel]. right. split; [intro E; symmetry in E; now apply k_n_neq_last in E|now eexists].
+    - constructor; [|now apply Forall_qdel]. split; [apply k_last_ok|exact Hl].
   Qed.
 
   Theorem concrete_exactly_once last0 fuel :
@@ -1105,15 +1167,9 @@ Section Concrete.
       + unfold link_ok. rewrite forallb_app. rewrite HP0p. cbn [forallb]. change (printable c_qm) with true. cbn [andb].
         apply (forallb_impl query_char printable _ query_char_printable). now apply enc_pairs_query_char.
     - (* the invariant is kept *)
-      intros i base x Hi Hx. rewrite mk_request_plain. unfold inv_c. cbn [u_path u_query].
-      exact (target_inv i base x Hi Hx).
+      intros i base x Hi Hx. apply mk_request_inv; [|constructor].
+      pose proof (target_inv i base x Hi Hx) as T. exact T.
     - (* and holds at the start *)
-      unfold mk_request. assert (E : (0 <? c_n c)%Z = false) by (apply Z.ltb_ge; exact Hn). rewrite E.
-      cbn [u_path u_query]. split; [reflexivity|].
-      destruct (sends_last (c_kind c) && negb (is_empty last0)).
-      + unfold qset. cbn [qdel]. split.
-        * constructor; [now eexists|constructor].
-        * constructor; [split; [apply k_last_ok|exact Hl]|constructor].
-      + split; constructor.
+      apply mk_request_inv; [|exact Hl]. split; [reflexivity|]. split; constructor.
   Qed.
 End Concrete.
